@@ -34,7 +34,7 @@ ALLOWED_AXIOM_PREFIXES = ("FloatAxioms.", "PrimFloat.", "PrimInt63.", "Uint63.")
 FORBIDDEN_RE = re.compile(
     r"\b(Admitted|admit|Axiom|Axioms|Parameter|Parameters|Conjecture|Conjectures|Admit Obligations|"
     r"Unset Guard Checking|Unset Positivity Checking|Unset Universe Checking|bypass_check|"
-    r"Hypothesis|Hypotheses|Variable|Variables)\b")
+    r"Hypothesis|Hypotheses|Variable|Variables|Context)\b")
 
 TRUSTED_BASE = [
     "Coq 8.16.1 kernel incl. vm_compute (no native_compute)",
@@ -298,15 +298,15 @@ def static_scan(ctx, files):
         # Section-local Variable/Hypothesis are allowed: strip section bodies' declarations
         in_section = 0
         for ln, line in enumerate(s2.split("\n"), 1):
-            if re.match(r"\s*Section\s", line):
+            if re.match(r"\s*(Section|Module Type|Module)\s+\w+\s*\.", line):
                 in_section += 1
             if re.match(r"\s*End\s", line) and in_section:
                 in_section -= 1
             for m in FORBIDDEN_RE.finditer(line):
                 w = m.group(1)
-                if w in ("Variable", "Variables", "Hypothesis", "Hypotheses") and in_section:
+                if w in ("Variable", "Variables", "Hypothesis", "Hypotheses", "Context") and in_section:
                     continue
-                if w in ("Variable", "Variables", "Hypothesis", "Hypotheses", "Parameter", "Parameters") and not re.match(r"\s*(Local\s+|Global\s+)?" + w, line):
+                if w in ("Variable", "Variables", "Hypothesis", "Hypotheses", "Context", "Parameter", "Parameters") and not re.match(r"\s*(Local\s+|Global\s+)?" + w, line):
                     continue
                 bad.append((f, ln, w))
     return bad
